@@ -488,7 +488,7 @@ func c17Env(t *testing.T, providerURL string, force bool, more func(c *AppConfig
 }
 
 func TestVerif_C17(t *testing.T) {
-	res := newVerifResult("login_destination strings: exhaustive over {/ \\\\ . a TAB ? # % : @}^<=L (L=4 quick, 5 thorough) through getLoginDestination+http.Redirect, a structured adversarial list, every raw/percent-encoded pair of dangerous bytes after the leading slash, and seeded random strings through POST /api/v0/login (text/html); the federated-login flow; the success path of every redirecting second-factor handler (bootstrap OTP, TOTP, VIP, Okta) with hostile values in the form field, the query string, Referer, Origin and forwarding headers; the family /<seg>{#,?,%23}/..{/..}*/<dangerous pair><host> (1-3 leading segments) at function level and through every redirecting handler; the channel family: no form/query value and hostile values in every cookie name the package reads or sets (harvested from the source), cookies and headers named like the parameter, a JSON body, a multipart field, a path suffix, through loginHandler, every second-factor success path and the federated flow; non-trivial = the filter accepted the string (redirect target differs from the profile page); distinct by (input, Location)")
+	res := newVerifResult("login_destination strings: exhaustive over {/ \\\\ . a TAB ? # % : @}^<=L (L=4 quick, 5 thorough) through getLoginDestination+http.Redirect, a structured adversarial list, every raw/percent-encoded pair of dangerous bytes after the leading slash, and seeded random strings through POST /api/v0/login (text/html); the federated-login flow; the success path of every redirecting second-factor handler (bootstrap OTP, TOTP, VIP, Okta) with hostile values in the form field, the query string, Referer, Origin and forwarding headers; the family /<seg>{#,?,%23}/..{/..}*/<dangerous pair><host> (1-3 leading segments) at function level and through every redirecting handler; the channel family: no form/query value and hostile values in every cookie name the package reads or sets (harvested from the source), cookies and headers named like the parameter, a JSON body, a multipart field, a path suffix, through loginHandler, every second-factor success path and the federated flow; every run of / and \\ of length 2..5 in front of a host at function level and through every redirecting handler; one daemon per empty-by-default string knob of the base configuration (reflection, real loader) set to a URL, driven with the scheme-in-first-segment family through every redirecting handler; non-trivial = the filter accepted the string (redirect target differs from the profile page); distinct by (input, Location)")
 	// a fake OAuth2 provider for the federated-login flow
 	provider := httptest.NewServer(http.HandlerFunc(func(w http.ResponseWriter, r *http.Request) {
 		w.Header().Set("Content-Type", "application/json")
@@ -1451,7 +1451,7 @@ func TestVerif_C17(t *testing.T) {
 	var knobCases []knobObs
 	knobDests := c17SchemeSegFamily(verifThorough())
 	for i, d := range slashRuns {
-		if i%16 == 3 || verifThorough() {
+		if i%16 == 3 || (verifThorough() && i%4 == 3) {
 			knobDests = append(knobDests, d)
 		}
 	}
